@@ -111,7 +111,7 @@ def report_failures(ctx, pools, fails, phase):
 
 
 # ----------------------------------------------------------------------------- phase 1: grammar
-def phase_grammar(ctx, only=None):
+def phase_grammar(ctx, only=None, edits=True):
     d = ctx.tmpdir("og")
     dump = os.path.join(d, "og")
     poolf = os.path.join(d, "pools.json")
@@ -125,10 +125,11 @@ def phase_grammar(ctx, only=None):
     ecfg = ctx.pick("ObjGrammar_quick_edits.cfg", "ObjGrammar_thorough_edits.cfg")
     box = {}
 
-    def edits():
+    def edits_run():
         box["res"] = tlc.run("ObjGrammar.tla", ecfg, workers=ctx.pick(4, 6), timeout=ctx.pick(300, 1500))
-    th = threading.Thread(target=edits)
-    th.start()
+    th = threading.Thread(target=edits_run)
+    if edits:
+        th.start()
     ctx.edit_thread = (th, box, ecfg)
     pools = L.load_pools(poolf)
     ctx.pools, ctx.dump, ctx.poolf = pools, dump + ".dump", poolf
@@ -145,7 +146,7 @@ def phase_grammar(ctx, only=None):
     nrs = ctx.pick(3, 4)
     jobs += [{"task": "grammar", "mode": "rs", "dump": ctx.dump, "pools": poolf, "shard": i, "nshards": nrs,
               "algos": list(L.ALGOS), "kinds": ["tree"], "only": only} for i in range(nrs)]
-    results = spawn(ctx, jobs, "grammar")
+    results = spawn(ctx, jobs, "grammar") if only != [] else []
     fails = []
     tot = {}
     for r in results:
@@ -159,6 +160,7 @@ def phase_grammar(ctx, only=None):
     for (k, key) in table:
         ctx.nontrivial(("g", k, key))
     ctx.cov["grammar"] = {"cases": len(table), **tot, "failures": sum(r["nfail"] for r in results)}
+    ctx.grammar_fails = fails
     ctx.log(f"grammar replay: {tot} failures={sum(r['nfail'] for r in results)}")
     report_failures(ctx, pools, fails, "grammar")
     ctx.n_cases = res.distinct
@@ -234,8 +236,8 @@ def phase_life(ctx):
     keeps = os.path.join(d, "blob_keeps_sha.cfg")
     tlc.write_cfg(keeps, spec="Spec", constants={"NF": 1, "Vals": "{0, 1, 2}", "IsBlob": "TRUE", "SetterMarksDirty": "TRUE",
                                                 "ChunkedResetsSha": "FALSE"})
-    for name, cfg, budget in (("generic", "ObjFile_mc.cfg", ctx.pick(500, 100000)), ("blob", "ObjFile_blob.cfg", ctx.pick(200, 100000)),
-                              ("blob_keeps_sha", keeps, ctx.pick(200, 100000))):
+    for name, cfg, budget in (("generic", "ObjFile_mc.cfg", ctx.pick(800, 100000)), ("blob", "ObjFile_blob.cfg", ctx.pick(300, 100000)),
+                              ("blob_keeps_sha", keeps, ctx.pick(300, 100000))):
         dot = os.path.join(d, name + ".dot")
         res = tlc.run("ObjFile.tla", cfg, workers=4, dump_dot=dot, timeout=600, coverage=not ctx.quick)
         ctx.add_tlc(f"ObjFile[{os.path.basename(cfg)}]" + (" invariants TypeOK IdIsHash SerCurrent CacheCoherent" if cfg != keeps else " (shape of the defect model, no invariants)"), res)
@@ -383,7 +385,7 @@ def phase_life_traces(ctx, traces):
 def phase_fuzz(ctx):
     d = ctx.tmpdir("fz")
     n_py, n_rs = ctx.pick(6, 12), ctx.pick(1, 3)
-    per = ctx.pick(700, 9000)
+    per = ctx.pick(700, 6000)
     jobs = [{"task": "fuzz", "mode": "py", "shard": i, "count": per, "traces": os.path.join(d, f"py{i}.ndjson")} for i in range(n_py)]
     jobs += [{"task": "fuzz", "mode": "rs", "shard": 100 + i, "count": per, "traces": os.path.join(d, f"rs{i}.ndjson")} for i in range(n_rs)]
     results = spawn(ctx, jobs, "fuzz")
@@ -672,6 +674,9 @@ def phase_git(ctx):
 
 # ----------------------------------------------------------------------------- entry
 def run(ctx):
+    import shutil
+    shutil.rmtree(ctx.replay_dir, ignore_errors=True)      # replay files of earlier runs are obsolete
+    os.makedirs(ctx.replay_dir, exist_ok=True)
     rustext.build()
     phase_grammar(ctx)
     traces = phase_life(ctx)
@@ -689,11 +694,66 @@ def run(ctx):
 
 
 def replay(ctx, path):
+    """Re-execute one recorded failing case on the current tree and print what happens."""
     obj = json.load(open(path))
-    print(json.dumps(obj, indent=1)[:6000])
+    print(json.dumps({k: v for k, v in obj.items() if k not in ("failure", "trace")}, indent=1))
     ctx.known = []
     rustext.build()
-    f = obj.get("failure", {})
-    if obj.get("phase") == "grammar":
-        phase_grammar(ctx, only=[[f["kind"], f["key"]]])
-    return 1 if ctx.violations else 0
+    phase = obj.get("phase")
+    f = obj.get("failure") or {}
+    if phase == "grammar":
+        phase_grammar(ctx, only=[[f["kind"], f["key"]]], edits=False)
+        for x in ctx.grammar_fails:
+            if x["clause"] == f["clause"] and x["mode"] == f["mode"] and x["algo"] == f["algo"]:
+                print("REPRODUCED", json.dumps({k: x[k] for k in ("site", "clause", "kind", "key", "algo", "mode", "note")}))
+                if "want" in x and "got" in x:
+                    w, g = bytes.fromhex(x["want"]), bytes.fromhex(x["got"])
+                    i = next((j for j in range(min(len(w), len(g))) if w[j] != g[j]), min(len(w), len(g)))
+                    print(f"  first difference at byte {i}:")
+                    print(f"  spec: ...{w[max(0, i - 60):i + 60]!r}")
+                    print(f"  real: ...{g[max(0, i - 60):i + 60]!r}")
+        return 1 if ctx.violations else 0
+    if phase in ("life", "life-trace"):
+        phase_grammar(ctx, only=[], edits=False)
+        if phase == "life-trace":
+            t = obj["trace"]
+            kind, triple = t["conc"].split("/")[0], t["conc"].split("/")[1]
+            f = {"conc": {"kind": kind, "algo": t["algo"], "triple": triple.split("+") if triple != "-" else None},
+                 "origin": t["origin"], "v0": t["v0"], "ops": t["ops"], "flavour": t["flavour"], "mode": "py", "clause": "", "scenario": t["scenario"]}
+        job = {"task": "life", "mode": f.get("mode", "py"), "dump": ctx.dump, "pools": ctx.poolf, "replay": f}
+        r = spawn(ctx, [job], "replay")[0]
+        for i, st in enumerate(r["steps"]):
+            print(f"  step {i}: {st['op']:14s} -> stands for {st['returned_value_stands_for']}  object: {st['projection']}")
+        for x in r["fail"]:
+            print("REPRODUCED", json.dumps(x))
+        return 1 if r["fail"] else 0
+    if phase == "fuzz":
+        job = obj.get("job") or {"mode": f.get("mode", "py"), "shard": f.get("shard", 0), "count": ctx.pick(700, 6000)}
+        d = ctx.tmpdir("fz")
+        job = dict(job, task="fuzz", traces=os.path.join(d, "t.ndjson"))
+        r = spawn(ctx, [job], "replay")[0]
+        res, verdicts = tlc_verdicts_quiet(job["traces"], r["n"]["traces"])
+        want_n = (obj.get("meta") or f).get("n")
+        bad = 0
+        for tid, v in verdicts.items():
+            m = r["meta"].get(str(tid), {})
+            if v[2] != "ok" and m.get("n") == want_n:
+                print("REPRODUCED (TLC verdict)", v, m)
+                bad += 1
+        for x in r["fail"]:
+            if x["n"] == want_n:
+                print("REPRODUCED", json.dumps({k: x[k] for k in ("site", "clause", "kind", "algo", "note")}), json.dumps(x["fields"])[:1500])
+                bad += 1
+        return 1 if bad else 0
+    if phase == "git-made":
+        d = ctx.tmpdir("gm")
+        of = os.path.join(d, "o.ndjson")
+        with open(of, "w") as fh:
+            fh.write(json.dumps(f["record"]) + "\n")
+        r = spawn(ctx, [{"task": "fuzz", "mode": f.get("mode", "py"), "objects": of}], "replay")[0]
+        for x in r["fail"]:
+            print("REPRODUCED", json.dumps({k: x[k] for k in ("site", "clause", "kind", "algo", "note")}))
+            print("  bytes:", x["bytes"][:800].encode("latin-1"))
+        return 1 if r["fail"] else 0
+    print("unknown replay file")
+    return 2
